@@ -318,6 +318,15 @@ def same(a, b, exact):
 
 
 # --------------------------------------------------------------------------- property oracle (real code only)
+def leafed(st):
+    if st is None:
+        return None, []
+    ts = list(st) if isinstance(st, tuple) else [st]
+    leaves = [s.detach().clone().requires_grad_(True) for s in ts]
+    dep = [v * 1.0 for v in leaves]
+    return (tuple(dep) if isinstance(st, tuple) else dep[0]), leaves
+
+
 def oracle(c, want_grads=True):
     """The property on the real code: DP layer loaded from the torch layer's state_dict vs the torch
     layer – outputs, final states, parameter gradients, keys and shapes.  Real activations always."""
@@ -341,12 +350,16 @@ def oracle(c, want_grads=True):
         if tuple(t.state_dict()[k].shape) != tuple(d.state_dict()[k].shape):
             return (f"C13:{c['kind']}:state_dict-shapes", f"shape of {k}: torch {tuple(t.state_dict()[k].shape)} dp {tuple(d.state_dict()[k].shape)}", {})
     x, xin, st = make_input(c)
+    # user-supplied initial states that carry an autograd graph (an encoder's final state, a previous chunk):
+    # each layer gets its own leaves, their gradients are compared below
+    st_t, leaves_t = leafed(st)
+    st_d, leaves_d = leafed(st)
     try:
-        ot, ht, ct, rawt = run_layer(t, c, xin, st)
+        ot, ht, ct, rawt = run_layer(t, c, xin, st_t)
     except Exception:
         return None  # configuration not supported by torch: outside the property
     try:
-        od, hd, cd, rawd = run_layer(d, c, xin, st)
+        od, hd, cd, rawd = run_layer(d, c, xin, st_d)
     except Exception as e:
         return (f"{tag}:exception", f"DP layer raised {type(e).__name__}: {e} where torch.nn runs", {})
     for what, a, b in (("output", ot, od), ("h_n", ht, hd), ("c_n", ct, cd)):
@@ -375,6 +388,10 @@ def oracle(c, want_grads=True):
             if cc is not None:
                 loss = loss + (cc.double() * wc).sum()
             loss.backward()
+        for nm, a, b in zip(("h_0", "c_0"), leaves_t, leaves_d):
+            if a.grad is not None and (b.grad is None or not same(fl(a.grad), fl(b.grad), False)):
+                return (f"{tag}:grad-initial-state", f"gradient w.r.t. the user-supplied initial state {nm} differs from torch.nn" + (" (none reaches it: the state is treated as a constant)" if b.grad is None else ""),
+                        {"torch": fl(a.grad), "dp": fl(b.grad)})
         gt = {k: p.grad for k, p in t.named_parameters()}
         gd = {k: p.grad for k, p in d.named_parameters()}
         if set(gt) != set(gd):
@@ -763,6 +780,8 @@ def run(ctx):
         run_cases(ctx, cases)
         # failing-input search on the real code (no model involved)
         search = [gen_case(ctx.rng, mode="float") for _ in range(ctx.n(250, 6000))]
+        # deep stacks ("any number of layers"): ten and more layers, small everything else
+        search += [gen_case(ctx.rng, mode="float", grid={"L": ctx.rng.choice([10, 11, 12, 14])}) for _ in range(ctx.n(12, 200))]
         for c in search:
             if c["kind"] == "lstm" and ctx.rng.random() < 0.5:
                 c["via_fix"] = 1   # DP layer obtained through ModuleValidator's fixer (validators/lstm.py)
